@@ -2,6 +2,7 @@
 // exit 0 = ran to completion (violations are in the log); 2 = harness failure; anything else is a
 // sanitizer / signal death that check.py attributes through the CRASH line.
 #include "common.h"
+#include "lib.h"
 
 void vp_install_handlers(void);
 void vp_set_status_file(const char* path);
@@ -14,6 +15,42 @@ static const struct {
              {"C06", run_C06}, {"C07", run_C07}, {"C08", run_C08}, {"C09", run_C09}, {"C10", run_C10},
              {"C11", run_C11}, {"C12", run_C12}, {"C13", run_C13}, {"C14", run_C14}, {"C15", run_C15},
              {"C16", run_C16}, {"C17", run_C17}, {"C18", run_C18}};
+
+// Every partition of a check is a fresh process. In the odd-numbered ones a *prelude* runs before the property's own
+// workload: a handful of legal calls of OTHER entry points, drawn from (seed, partition) - conversion tables with small
+// and large bounds, *_simple functions at assorted sizes, product precomputations, an inverse NTT table, fft tables with
+// built-in buffers, a module that is deleted again. What the first call of a process was, and which objects existed before,
+// must not matter to anything that follows (function-level statics that remember a first decision, lazily filled shared
+// tables). Even partitions start cold. A crash inside the prelude is reported like any harness-attributed death.
+static void process_prelude(void) {
+  if (!(G.part & 1) || !strcmp(G.prop, "C12")) return;  // C12 times its own cold start
+  rng_t r;
+  rng_seed(&r, G.seed * 0x9E3779B97F4A7C15ull + (uint64_t)G.part, 4242);
+  const int steps = 3 + (int)(rng_u64(&r) % 6);
+  double* x = calloc(2 * 65536, 8);
+  double* y = calloc(2 * 65536, 8);
+  int64_t* z = calloc(2 * 65536, 8);
+  int32_t* w = calloc(2 * 65536, 4);
+  for (int s = 0; s < steps; s++) {
+    const uint32_t m = 1u << (rng_u64(&r) % 11);
+    switch (rng_u64(&r) % 12) {
+      case 0: { static const uint32_t B[] = {12, 30, 40, 50}; reim_to_znx64_simple(m < 8 ? 16 : m, 16.0, B[rng_u64(&r) & 3], z, x); break; }
+      case 1: { REIM_TO_ZNX64_PRECOMP* t = new_reim_to_znx64_precomp(m < 8 ? 8 : m, 4.0, 20 + (uint32_t)(rng_u64(&r) % 30)); reim_to_znx64(t, z, x); free(t); break; }
+      case 2: reim_from_znx64_simple(m, 10 + (uint32_t)(rng_u64(&r) % 20), x, z); break;
+      case 3: { q120_ntt_precomp* t = q120_new_intt_bb_precomp(1ull << (1 + rng_u64(&r) % 8)); q120_del_intt_bb_precomp(t); break; }
+      case 4: { void* a = q120_new_vec_mat1col_product_bbc_precomp(); void* b = q120_new_vec_mat1col_product_bbb_precomp(); q120_delete_vec_mat1col_product_bbc_precomp(a); q120_delete_vec_mat1col_product_bbb_precomp(b); break; }
+      case 5: reim_ifft_simple(rng_u64(&r) & 1 ? 1 : m, x); break;
+      case 6: cplx_ifft_simple(m, x); cplx_fft_simple(rng_u64(&r) & 1 ? 4 : 2 * m, y); cplx_ifft_simple(m, x); break;
+      case 7: { CPLX_FFT_PRECOMP* t = new_cplx_fft_precomp(4u << (rng_u64(&r) % 3), 2); memset(cplx_fft_precomp_get_buffer(t, 0), 0x11, 64); free(t); break; }
+      case 8: { MODULE* mo = new_module_info(1ull << (2 + rng_u64(&r) % 10), (rng_u64(&r) & 3) ? FFT64 : NTT120); delete_module_info(mo); break; }
+      case 9: cplx_to_tnx32_simple(m < 8 ? 8 : m, 2.0, 18 + (uint32_t)(rng_u64(&r) % 10), w, x); break;
+      case 10: { REIM_TO_TNX_PRECOMP* t = new_reim_to_tnx_precomp(m < 4 ? 4 : m, 8.0, (uint32_t)(rng_u64(&r) % 40)); reim_to_tnx(t, y, x); free(t); break; }
+      default: reim_fftvec_mul_simple(m, y, x, x); reim_fft_simple(m, x); break;
+    }
+  }
+  free(x); free(y); free(z); free(w);
+  fprintf(G.log, "S\t-1\tprocess-prelude\tpart=%d\t%d calls of other entry points before the workload\n", G.part, steps);
+}
 
 int main(int argc, char** argv) {
   if (argc < 2) {
@@ -82,6 +119,7 @@ int main(int argc, char** argv) {
     if (!strcmp(table[i].id, G.prop)) {
       fprintf(G.log, "START\t%s\ttier=%s\tseed=%" PRIu64 "\tpart=%d/%d\tskip=%" PRId64 "\tmode=%s\n", G.prop,
               G.thorough ? "thorough" : "quick", G.seed, G.part, G.nparts, G.skip_upto, G.mode);
+      process_prelude();
       table[i].fn();
       finish_summary();
       fprintf(G.log, "DONE\n");
